@@ -57,3 +57,9 @@ META["C01"] = dict(
           "compared with a reference model chosen by pipeline class; the default chain, the chain without SIMD and the pure general "
           "chain are each checked against the model."),
     note="Trusted: harness/ref_combine.hpp and harness/img.hpp. Found and fixed: S1.")
+META["C12"] = dict(
+    technique="property-based testing (rapidcheck): exact rational sample-count model + metamorphic laws (split, offset, decomposition, composite route)",
+    design_ref="§4 C12",
+    text=("Generated trapezoids/triangles on a1/a4/a8 images compared pixel by pixel with an exact sample-count model and with the "
+          "metamorphic laws named in the statement; boundary-biased coordinates (pixel edges, sample positions +-2 units)."),
+    note="Trusted: the rational model in props/traps.cpp. Findings: S16 fixed; S15 and S17 known (see known_findings.json).")
